@@ -452,7 +452,7 @@ func (sn *symlinkNode) fillStatFrom(name string) *MemInfo {
 		mtime: sn.mtime,
 		uid:   sn.uid,
 		gid:   sn.gid,
-		nlink: 0,
+		nlink: 1,
 	}
 
 	sn.mu.RUnlock()
@@ -466,5 +466,5 @@ func (sn *symlinkNode) setMode(mode fs.FileMode, u avfs.UserReader) bool {
 }
 
 func (sn *symlinkNode) size() int64 {
-	return 1
+	return int64(len(sn.link))
 }
